@@ -56,7 +56,33 @@ class Path:
     @property
     def value(self) -> ast.expr | None:
         if self.outcome == "return" and isinstance(self.node, ast.Return):
-            return self.node.value
+            v = self.node.value
+            # ``tmp = <expr>; return tmp`` with a temp that is bound once and used only here is ``return <expr>``
+            if isinstance(v, ast.Name) and len(self.steps) >= 2:
+                prev = self.steps[-2]
+                n = prev.node
+                if (
+                    prev.kind == "stmt"
+                    and isinstance(n, ast.Assign)
+                    and len(n.targets) == 1
+                    and isinstance(n.targets[0], ast.Name)
+                    and n.targets[0].id == v.id
+                ):
+                    binds = 0
+                    reads = 0
+                    for s in self.steps[:-1]:
+                        node = s.node
+                        for w in ast.walk(node) if not isinstance(node, ast.match_case) else ast.walk(node.pattern):
+                            if isinstance(w, ast.Name) and w.id == v.id:
+                                if isinstance(w.ctx, ast.Store):
+                                    binds += 1
+                                else:
+                                    reads += 1
+                            elif isinstance(w, (ast.MatchAs, ast.MatchStar)) and getattr(w, "name", None) == v.id:
+                                binds += 1
+                    if binds == 1 and reads == 0:
+                        return n.value
+            return v
         if self.outcome == "raise" and isinstance(self.node, ast.Raise):
             return self.node.exc
         return None
